@@ -349,6 +349,10 @@ class Unifier:
                 inl = self.inline_helper(v)
                 if inl is not None:
                     return inl
+            if norm(v.func) in ("np.rec.fromarrays", "numpy.rec.fromarrays"):
+                inl = self.packed_rows(v, v)
+                if inl is not None:
+                    return inl
         if isinstance(v, ast.Call) and not shaped and not is_self(v.func):
             # a call that does not involve the block (clock, random, builtin): one scalar; the determinism rule judges it
             return ("scalar",)
@@ -375,6 +379,16 @@ class Unifier:
         if ret is None:
             return None
         ret = simplify(ret, self.ctx)
+        return self.packed_rows(ret, call)
+
+    def packed_any(self, val):
+        """packed rows from a helper call on self or from np.rec.fromarrays written in place"""
+        if norm(val.func) in ("np.rec.fromarrays", "numpy.rec.fromarrays"):
+            return self.packed_rows(val, val)
+        return self.inline_helper(val)
+
+    def packed_rows(self, ret, call):
+        """np.rec.fromarrays([self.A[a:b], ...], dtype=T.btype): rows = b - a, components = the sliced attributes"""
         if isinstance(ret, ast.Call) and norm(ret.func) in ("np.rec.fromarrays", "numpy.rec.fromarrays") and ret.args and isinstance(ret.args[0], (ast.List, ast.Tuple)):
             arrs = ret.args[0].elts
             rows = None
@@ -503,8 +517,8 @@ class Unifier:
 
     def _store_target(self, idx, val):
         # packed rows written by a helper: value is the helper call
-        if isinstance(val, ast.Call) and isinstance(val.func, ast.Attribute) and is_self(val.func.value):
-            k = self.inline_helper(val)
+        if isinstance(val, ast.Call) and isinstance(val.func, ast.Attribute) and (is_self(val.func.value) or norm(val.func) in ("np.rec.fromarrays", "numpy.rec.fromarrays")):
+            k = self.packed_any(val)
             if k and len(k) == 3:
                 arrs = k[2]
                 sl = arrs[0].slice
